@@ -2,26 +2,33 @@
 import itertools
 
 ID = 'C13'
+LEAN_MODULES = ['C13', 'C13b']
 RULE = ('one case = a real datacake_rpc::Server on loopback with three services (A and B share the message type M1, C handles M1 and M2) and a sequence of '
         'add_service / remove_service events (each add installs a new instance, so replacement is observable); after EVERY event all four (service, message) '
-        'pairs are sent over a real client channel and classified ok:<instance> / unavailable; quick: all sequences up to length 3 plus random ones up to 10; '
+        'pairs are sent over a real client channel and classified ok:<instance> / unavailable; quick: all sequences up to length 3 plus random ones up to 10; ' 'a second family has two service TYPES registered under ONE name, a four-message service and eight single-message bystanders (16 pairs called after every event); '
         'thorough: all sequences up to length 5; non-trivial = contains a remove of a registered service while another service is registered; distinct by hash')
 ASSUMPTIONS = ['SipHash of the handler URIs is injective on the URIs in play (handler keys of different services are disjoint)',
                'hyper/h2 deliver each request to the service function (transport is exercised, not modelled)']
 TRUSTED_BASE = ['correspondence: dcharness (real Server::add_service/remove_service + RpcClient::send over 127.0.0.1) vs dcdriver (Datacake.Rpc registry model); '
                 'spec oracle = last-event function `registered`']
-THEOREM_NOTE = 'Datacake.Rpc.addHandlers/removeHandlers/getHandler (Model/Rpc.lean); theorems served_iff_registered, remove_does_not_disable_others, remove_leaves_nothing_behind'
+THEOREM_NOTE = 'Datacake.Rpc.addHandlers/removeHandlers/getHandler (Model/Rpc.lean); theorems served_iff_registered, remove_does_not_disable_others, remove_leaves_nothing_behind and their general forms (several types per name) in Props/C13b'
 EXHAUSTIVE = {'quick': True, 'thorough': True}
 JOBS = 8
 PAIRS = [('A', 'M1'), ('B', 'M1'), ('C', 'M1'), ('C', 'M2')]
 EVENTS = ['add A', 'add B', 'add C', 'remove A', 'remove B', 'remove C']
+# second family: D and E are two service TYPES registered under ONE name ("shared"), S has four message types,
+# P0..P7 are single-message bystanders (their hashed keys fall all over the key space)
+TYPES2 = ['D', 'E', 'S'] + ['P%d' % i for i in range(8)]
+PAIRS2 = [('D', 'M1'), ('E', 'M2'), ('S', 'M1'), ('S', 'M2'), ('S', 'M3'), ('S', 'M4')] + [('P%d' % i, 'M1') for i in range(8)] + [('A', 'M1'), ('C', 'M2')]
+EVENTS2 = ['add %s' % t for t in TYPES2 + ['A', 'C']] + ['remove %s' % t for t in TYPES2 + ['A', 'C']]
 
 
 def removable(line):
     return line.startswith(('add', 'remove'))
 
 
-def mk(idx, evs):
+def mk(idx, evs, pairs=None):
+    pairs = pairs or PAIRS
     lines = ['case %d rpc' % idx]
     inst = 100
     for e in evs:
@@ -30,7 +37,7 @@ def mk(idx, evs):
             lines.append('%s %d' % (e, inst))
         else:
             lines.append(e)
-        for (s, m) in PAIRS:
+        for (s, m) in pairs:
             lines.append('call %s %s' % (s, m))
     lines.append('end')
     return lines
@@ -44,6 +51,15 @@ def generate(rng, tier):
             cases.append(mk(idx, list(evs))); idx += 1
     for _ in range(dict(quick=150, thorough=2000, search=1000)[tier]):
         cases.append(mk(idx, [rng.choice(EVENTS) for _ in range(rng.range(4, 10))])); idx += 1
+    # shared names, a wide service, bystanders: first everything is registered, then random events (removals twice as likely)
+    for _ in range(dict(quick=40, thorough=1500, search=300)[tier]):
+        pre = ['add %s' % t for t in rng.shuffle(TYPES2) if rng.chance(3, 4)]
+        evs = pre + [rng.choice(EVENTS2 + EVENTS2[len(EVENTS2) // 2:]) for _ in range(rng.range(1, 6))]
+        cases.append(mk(idx, evs, PAIRS2)); idx += 1
+    # the two shapes by themselves, exhaustively short
+    for evs in (['add D', 'add E', 'remove D'], ['add E', 'add D', 'remove E'], ['add D', 'add P0', 'add E', 'remove D', 'add D'],
+                ['add S'] + ['add P%d' % i for i in range(8)] + ['remove S'], ['add P%d' % i for i in range(8)] + ['add S', 'add D', 'add E', 'remove S', 'remove E']):
+        cases.append(mk(idx, evs, PAIRS2)); idx += 1
     return cases
 
 
